@@ -218,6 +218,32 @@ Theorem C06_op_roundtrip : forall kind, kind = 0 \/ kind = 1 ->
 Proof. exact op_Roundtrip. Qed.
 Print Assumptions C06_op_roundtrip.
 
+Theorem C06_op_roundtrip_empties : forall kind, kind = 0 \/ kind = 1 ->
+  forall ms pat wl pos,
+  Forall msg_wf ms -> all_pos pat = true -> all_nonneg pos = true ->
+  zlen (wire_of (k_enc kind) ms) < 2 ^ 63 ->
+  match model_wire kind ms with
+  | None => VPanic
+  | Some wire =>
+      match c_Stream kind (insert_empties pos (chunks_of pat wire), term_of 0 wl) with
+      | None => VPanic
+      | Some (steps, r') => VL [vzs wire; VL (map v_step steps); vzs (rd_bytes r')]
+      end
+  end = VL [vzs (wire_of (k_enc kind) ms); VL (map v_step (frames_steps (k_enc kind) 0 ms)); vzs []].
+Proof. exact op_Roundtrip_empties. Qed.
+Print Assumptions C06_op_roundtrip_empties.
+
+(** non-vacuity of "empty chunks": the reader returns (0, nil) before the first byte, at the
+    header/body boundary and in the middle of the body *)
+Example C06_empty_chunks_nonvacuous :
+  let t := {| t_err := EEOF; t_with_last := true |} in
+  let wire := frame [49; 46; 48] [7; 8; 9] in
+  let cs := insert_empties [0; 2; 4; 4] (chunks_of [32; 1] wire) in
+  cs = [[]; frame_header [49; 46; 48] 3; []; [7]; []; []; [8; 9]]
+  /\ chunks_ok cs /\ concat cs = wire
+  /\ c_Stream 0 (cs, t) = Some ([(35, [49; 46; 48], None, [7; 8; 9], 35); (0, [], Some EEOF, [], 35)], ([], t)).
+Proof. vm_compute. repeat split; try reflexivity. discriminate. Qed.
+
 Theorem C06_op_walk : forall kind, kind = 0 \/ kind = 1 ->
   forall ms pat wl,
   Forall msg_wf ms -> forallb (walk_body_ok kind) ms = true -> all_pos pat = true ->
